@@ -10,6 +10,9 @@ steps k+1..n (and the loaded state must equal the saved one).
 Restart points: every k in 0..n on both tiers.  Workloads include tables whose names
 are not in alphabetical order, a forced-only move of weight 0, cell moves that leave
 the Cartesian positions alone, and a non-default accessible volume.
+Every other reference run is re-tuned live through its documented attributes after a third of its steps (a resume
+from an earlier file replays the re-tuning at the same point), the dictionary loaded from a file is used a second
+time after the first rebuilt simulation has run, and a resumed run must perform exactly the requested steps.
 """
 from __future__ import annotations
 
